@@ -308,7 +308,7 @@ func c03Lookalike(r *vlib.Rand) []byte {
 	case 7: // the DNS-shaped prefix of the prefix transport, then a plausible rest
 		return append([]byte("\x05\xDC\x5F\xE0\x01\x20"), r.Bytes(r.Range(0, 1500))...)
 	default: // obfs4-sized uniformly random handshake
-		return r.Bytes(r.Range(64, 8192))
+		return r.Bytes([]int{r.Range(64, 600), r.Range(64, 600), r.Range(600, 8192)}[r.Intn(3)])
 	}
 }
 
@@ -521,14 +521,16 @@ func (g *c03Gen) random(n int) {
 	for i := 0; i < n; i++ {
 		var d []byte
 		class := "random"
-		switch k := r.Intn(20); {
-		case k < 3:
+		switch k := r.Intn(50); {
+		case k < 15:
 			d = r.Bytes(r.Range(0, 100))
-		case k < 8:
-			d = r.Bytes(r.Range(100, 4096))
-		case k < 10:
+		case k < 30:
+			d = r.Bytes(r.Range(100, 1500))
+		case k < 34:
+			d = r.Bytes(r.Range(1500, 4096))
+		case k < 36:
 			d = r.Bytes(r.Range(4096, 16384))
-		case k < 11:
+		case k < 37:
 			d = r.Bytes([]int{32, 64, 8192, 16384}[r.Intn(4)])
 		default:
 			d = c03Lookalike(r)
@@ -784,7 +786,7 @@ func TestVerifC03(t *testing.T) {
 			case 2:
 				g.wrongPlace(thorough)
 			}
-			g.random(vlib.Budget(2500, 40000))
+			g.random(vlib.Budget(2500, 12000))
 		}(wi)
 	}
 	gwg.Wait()
